@@ -85,6 +85,27 @@ fn generic_case<S: Scheme>(ctx: &mut Ctx, rng: &mut ChaCha20Rng) {
         let o = chk(v, &pf, &z);
         judge(ctx, "foreign-commitment-proof", "check", &desc, v != truth, &o, json!({"claimed": "q(z)"}));
     }
+    // (1d) honest proof for two polynomials at one point, claimed values shifted by (d, -d): both claims are false,
+    //      their plain sum is unchanged
+    {
+        let p2: LPoly<S> = LabeledPolynomial::new("p2".into(), S::gen_poly(&cfg, Shape::Full, deg, rng), None, hiding);
+        let p1: LPoly<S> = LabeledPolynomial::new("p1".into(), p.polynomial().clone(), None, hiding);
+        let pair = [p1, p2];
+        if let Ok(c2) = commit::<S>(&w.ck, &pair, rng.next_u64()) {
+            let mut s = sp();
+            let mut r = mon_rng(6);
+            if let Ok(pf) = attempt(|| PcOf::<S>::open(&w.ck, pair.iter(), c2.comms.iter(), &z, &mut s, c2.states.iter(), Some(&mut r))) {
+                let d = FOf::<S>::rand(rng) + FOf::<S>::one();
+                let vals = [pair[0].evaluate(&z) + d, pair[1].evaluate(&z) - d];
+                let cs: Vec<&LComm<S>> = c2.comms.iter().collect();
+                let honest = check::<S>(&w.vk, &cs, &z, &[pair[0].evaluate(&z), pair[1].evaluate(&z)], &pf, &mut sp(), 1);
+                if honest == Out::Accept {
+                    let o = check::<S>(&w.vk, &cs, &z, &vals, &pf, &mut sp(), 1);
+                    judge(ctx, "honest-proof-cancelling-values", "check", &desc, !d.is_zero(), &o, json!({"polynomials": 2}));
+                }
+            }
+        }
+    }
     // (2) a single-point batch whose proof list is empty / doubled, for a false value
     {
         let mut qs: QuerySet<PtOf<S>> = QuerySet::new();
